@@ -19,8 +19,7 @@ TRUSTED = ["Lean 4.33.0 kernel", "axioms: propext, Classical.choice, Quot.sound 
            "(runPhysParLat_spec_antisymm); tied by `eng runppl` on the lattice programs of this check",
            "Props/C02PhysAgg.lean (Proofs/PhysParAgg*.lean): ascent_par! on stratified programs with aggregation / negation over its concurrent indices - for EVERY schedule, pool size and fuel no panic and the "
            "stratified model, every aggregation over the final rows, each tuple once (runPhysPar_agg_eq_model: the multiplicity invariant of the hash indices carried through the concurrent inserts, the shard-wise "
-           "merge of CRelNoIndex and the schedule permutations); two runs under different schedules and pools agree (runPhysPar_agg_schedule_pool_independent); NOT modelled: the frozen check of the aggregated "
-           "relation's index (the model checks clause relations only; the proof shows the flags hold: iteration_aggFrozen); tied by `eng runpp` on the aggregation programs of this check",
+           "merge of CRelNoIndex and the schedule permutations); two runs under different schedules and pools agree (runPhysPar_agg_schedule_pool_independent); the model panics on an unfrozen index of a clause relation OR of an aggregated relation (index_get unwrap_frozen); tied by `eng runpp` on the aggregation programs of this check",
            "tie: ascent_par! twins of generated programs (relations, lattices, aggregation, with and without #![inter_rule_parallelism]) run in pools "
            "of 1,2,3,4,8,16 threads under seeded perturbation of the concurrent index inserts (hook), with a hang watchdog, vs the serial model and oracle",
            "PARTIAL: atomicity of DashMap shard locks, boxcar push, RwLock/Mutex and rayon's completion (happens-before for the Relaxed `changed` flag) "
